@@ -57,7 +57,7 @@ func (a *anchors) generators() (gens []*ssa.Function, sums map[*ssa.Function]Sum
 					// a caller that emits h's output buffer is the emitter the pairing rule is about, not a generator h is part of
 					for _, fb := range f.Blocks {
 						for _, fin := range fb.Instrs {
-							if w, buf := a.isWriterWrite(fin, recv(f)); w && (buf == sums[h].OutBuf || sums[h].OutBuf == nil) {
+							if w, buf := a.isWriterWrite(fin, recv(f)); w && (buf == nil || buf == sums[h].OutBuf || sums[h].OutBuf == nil) {
 								ok = false
 							}
 						}
